@@ -215,6 +215,20 @@ func c18Programs() []Program {
 			Prfs: [][]string{nil, {"link", "dup"}}[i%2]}
 		ps = append(ps, Program{Kind: "receipt", Rcpt: &s})
 	}
+	// time bounds at and below zero, and beyond 2^31 / 2^53
+	for i, tb := range [][2]int{{-5, -7}, {0, -1}, {1 << 31, -(1 << 40)}, {1<<53 + 1, 1 << 31}, {1<<62 + 3, 0}, {-1, 1}} {
+		var s USpec
+		s.Key = []string{"ed0", "rsa0", "wrap3"}[i%3]
+		s.Aud = "ed16"
+		s.Fields.Att = []UCap{{Can: "store/add", With: "did:key:z6MkExample", Nb: tvMap(nil)}}
+		e, nb := tb[0], tb[1]
+		s.Fields.Exp = &e
+		if nb != 0 {
+			s.Fields.Nbf = &nb
+		}
+		s.Alter = "none"
+		ps = append(ps, Program{Kind: "token", Token: &s})
+	}
 	// receipts the server issues itself for requests it cannot run (no stack traces in these), and error
 	// receipts built from plain, named, wrapped and self-describing errors
 	for _, k := range []string{"notfound", "twocap", "handlererr", "handlernamed"} {
